@@ -107,6 +107,10 @@ class CanvasCache:
             depends = []
             for _x, _y, c, _pos in canv.children:
                 if c.widget_info:
+                    if weakref.ref(c) not in cls._refs:
+                        # this very child canvas is not cached (its widget may still have other
+                        # canvases cached): nothing would invalidate us when the child changes
+                        raise LookupError(c)
                     depends.append(c.widget_info[0])
                 elif hasattr(c, "children"):
                     depends.extend(walk_depends(c))
@@ -115,7 +119,10 @@ class CanvasCache:
         # use explicit depends_on if available from the canvas
         depends_on = getattr(canvas, "depends_on", None)
         if depends_on is None and hasattr(canvas, "children"):
-            depends_on = walk_depends(canvas)
+            try:
+                depends_on = walk_depends(canvas)
+            except LookupError:
+                return
         if depends_on:
             for w in depends_on:
                 if w not in cls._widgets:
